@@ -196,6 +196,14 @@ func (s Schema) DrawRules(t *rapid.T, lo, hi int, cfg RuleCfg) []m.Rule {
 	for i := 0; i < n; i++ {
 		out = append(out, s.DrawRule(t, cfg))
 	}
+	if n > 0 && rapid.IntRange(0, 9).Draw(t, "nonbool") == 0 {
+		// an expression whose value is not a boolean (an integer here) is not "true": the rule
+		// never fires, without an error
+		i := rapid.IntRange(0, n-1).Draw(t, "nonbool.of")
+		r := out[i]
+		r.Exprs = append(append([]*m.Expr{}, r.Exprs...), m.Bin("+", m.V(m.Int(1)), m.V(m.Int(2))))
+		out[i] = r
+	}
 	if n > 0 && rapid.IntRange(0, 5).Draw(t, "twin") == 0 {
 		// near-duplicates: two rules that agree in head, body, variable names and operands and
 		// differ only in one operator (one of them is satisfiable, the other is not)
